@@ -123,11 +123,49 @@ pub fn corpus(q: u8) {
             ecs_iter_borrow!(world, |d: &EntityDirectAny, b: &CB, e: &Entity<_>| { assert!(d.archetype_id() == e.into_any().archetype_id()); s.see(e.into_any().archetype_id(), 1, b.0); });
             s.expect(&n, [true, true, false, false], 1);
         }
+        6 => {
+            // OneOf FIRST, plain component after it (the order of the closure's parameters is the user's)
+            ecs_iter!(world, |x: &OneOf<CB, CD>, e: &EntityAny, c: &CC| {
+                let id = e.archetype_id();
+                s.see(id, 2, c.0);
+                s.see(id, if id == 1 { 1 } else { 3 }, x.0);
+            });
+            s.expect(&n, [false, true, true, false], 2);
+        }
+        7 => {
+            // OneOf in the MIDDLE, mutable, entity parameter last
+            ecs_iter_borrow!(world, |c: &CC, x: &mut OneOf<CB, CD>, e: &EntityAny| {
+                let id = e.archetype_id();
+                s.see(id, 2, c.0);
+                s.see(id, if id == 1 { 1 } else { 3 }, x.0);
+            });
+            s.expect(&n, [false, true, true, false], 2);
+        }
         _ => {}
     }
     cover!(n[0] == 2 && n[1] == 0 && n[2] == 1 && n[3] == 2, "mixed populations incl. an empty matched archetype");
     cover!(n[0] == 0 && n[1] == 0 && n[2] == 0 && n[3] == 0, "all empty");
     std::mem::forget(world);
+}
+
+pub mod wq3 {
+    use gecs::prelude::*;
+    #[derive(Clone, Copy, PartialEq)]
+    pub struct X0(pub u8);
+    #[derive(Clone, Copy, PartialEq)]
+    pub struct X1(pub u8);
+    #[derive(Clone, Copy, PartialEq)]
+    pub struct X2(pub u8);
+    #[derive(Clone, Copy, PartialEq)]
+    pub struct X3(pub u8);
+
+    // every archetype owns exactly one of X0..X2 (declared at different positions) plus X3
+    ecs_world! {
+        ecs_name!(WQ3);
+        ecs_archetype!(R0, X0, X3);
+        ecs_archetype!(R1, X3, X1);
+        ecs_archetype!(R2, X2, X3);
+    }
 }
 
 /// ecs_find! / ecs_find_borrow!: on a live entity of an unmatched archetype the result is None
@@ -184,6 +222,90 @@ harness! { fn c05_iter_borrow_one_of() unwind(6) { corpus(2) } }
 harness! { fn c05_iter_component_and_one_of() unwind(6) { corpus(3) } }
 harness! { fn c05_iter_typed_entity() unwind(6) { corpus(4) } }
 harness! { fn c05_iter_borrow_wild_and_direct() unwind(6) { corpus(5) } }
+harness! { fn c05_iter_one_of_first() unwind(6) { corpus(6) } }
+harness! { fn c05_iter_borrow_one_of_middle() unwind(6) { corpus(7) } }
 harness! { fn c05_find_unmatched() unwind(6) { find_corpus(false) } }
 harness! { fn c05_find_borrow_unmatched() unwind(6) { find_corpus(true) } }
 harness! { fn c05_iter_destroy_one_of() unwind(6) { destroy_corpus() } }
+
+pub mod three {
+    use super::wq3::*;
+    use crate::sym;
+    use crate::{cover, harness};
+    use gecs::prelude::*;
+
+    /// Arity-3 OneOf at every position of the parameter list, through all five macros: the OneOf
+    /// parameter is bound to the archetype's own member column, the plain parameter to its own.
+    pub fn corpus3(q: u8) {
+        let mut world = WQ3::with_capacity(WQ3Capacity { r_0: 1, r_1: 1, r_2: 1 });
+        let mut n = [0usize; 3];
+        let mut a = 0;
+        while a < 3 {
+            n[a] = sym::any_usize();
+            sym::assume(n[a] <= 1);
+            a += 1;
+        }
+        let mut hs: [Option<EntityAny>; 3] = [None; 3];
+        if n[0] == 1 { hs[0] = Some(world.create::<R0>((X0(0 + 0), X3(0 + 12))).into_any()); }
+        if n[1] == 1 { hs[1] = Some(world.create::<R1>((X3(16 + 12), X1(16 + 4))).into_any()); }
+        if n[2] == 1 { hs[2] = Some(world.create::<R2>((X2(32 + 8), X3(32 + 12))).into_any()); }
+        let mut calls = [0usize; 3];
+        // value v handed for column letter `col` of an entity of archetype `id`
+        let mut see = |id: u8, col: u8, v: u8| {
+            assert!(id < 3, "closure ran for an undeclared archetype");
+            assert!(v >> 4 == id, "parameter bound to another archetype's column");
+            assert!((v >> 2) & 3 == col, "parameter bound to another component's column of the archetype (parameter order / OneOf member)");
+            calls[id as usize] += 1;
+        };
+        match q {
+            0 => ecs_iter!(world, |x: &OneOf<X0, X1, X2>, k: &X3, e: &EntityAny| { let id = e.archetype_id(); see(id, id, x.0); see(id, 3, k.0); }),
+            1 => ecs_iter_borrow!(world, |k: &X3, x: &mut OneOf<X2, X0, X1>, e: &EntityAny| { let id = e.archetype_id(); see(id, id, x.0); see(id, 3, k.0); }),
+            2 => ecs_iter!(world, |e: &EntityAny, x: &mut OneOf<X1, X2, X0>, k: &mut X3| { let id = e.archetype_id(); see(id, id, x.0); see(id, 3, k.0); }),
+            3 => {
+                let mut a = 0;
+                while a < 3 {
+                    if let Some(h) = hs[a] {
+                        let r = ecs_find!(world, h, |x: &OneOf<X0, X1, X2>, k: &X3| (x.0, k.0));
+                        assert!(r.is_some(), "ecs_find! on a live entity of a matched archetype returned None");
+                        see(a as u8, a as u8, r.unwrap().0);
+                        see(a as u8, 3, r.unwrap().1);
+                    }
+                    a += 1;
+                }
+            }
+            4 => {
+                let mut a = 0;
+                while a < 3 {
+                    if let Some(h) = hs[a] {
+                        let r = ecs_find_borrow!(world, h, |k: &X3, x: &OneOf<X2, X1, X0>| (x.0, k.0));
+                        assert!(r.is_some(), "ecs_find_borrow! on a live entity of a matched archetype returned None");
+                        see(a as u8, a as u8, r.unwrap().0);
+                        see(a as u8, 3, r.unwrap().1);
+                    }
+                    a += 1;
+                }
+            }
+            _ => ecs_iter_destroy!(world, |x: &OneOf<X0, X1, X2>, e: &EntityAny, k: &X3| {
+                let id = e.archetype_id();
+                see(id, id, x.0);
+                see(id, 3, k.0);
+                EcsStepDestroy::Continue
+            }),
+        }
+        let mut a = 0;
+        while a < 3 {
+            assert!(calls[a] == 2 * n[a], "closure ran for an archetype another number of times than it has entities");
+            a += 1;
+        }
+        cover!(n[0] == 1 && n[1] == 1 && n[2] == 1, "all three archetypes populated");
+        cover!(n[0] == 0 && n[1] == 1 && n[2] == 0, "only the middle archetype populated");
+        std::mem::forget(world);
+    }
+
+    harness! { fn c05_one_of3_iter_first() unwind(5) { corpus3(0) } }
+    harness! { fn c05_one_of3_iter_borrow_middle() unwind(5) { corpus3(1) } }
+    harness! { fn c05_one_of3_iter_mut_between() unwind(5) { corpus3(2) } }
+    harness! { fn c05_one_of3_find() unwind(5) { corpus3(3) } }
+    harness! { fn c05_one_of3_find_borrow() unwind(5) { corpus3(4) } }
+    harness! { fn c05_one_of3_iter_destroy() unwind(5) { corpus3(5) } }
+}
